@@ -1365,10 +1365,16 @@ fn x_c08_keepalive(r: &DuoRun, wm: &WireModel, ei: &EndInfo, o: &mut Outcome) {
         if r.plan.eps[x].keepalive_ms[0] == 0 {
             continue;
         }
-        // its pings or the pongs to them are swallowed from the cut on: the keepalive expires
+        // its pings or the pongs to them are swallowed from the cut on: the keepalive expires -
+        // provided the run went on for T + 2 I after the cut (the cut is placed by scheduling
+        // round, and with little traffic a late round can lie just before the horizon)
         o.probe("silent-link-under-keepalive", 1);
+        let (iv, t) = (r.plan.eps[x].keepalive_ms[0], r.plan.eps[x].keepalive_ms[1]);
+        let cut_by = ei.first_fault_seq.and_then(|fs| r.link.lock().unwrap().evs.iter().find(|e| e.seq > fs).map(|e| e.t.as_millis() as u64));
+        let long_enough = cut_by.is_some_and(|c| r.sim_ms >= c + t + 2 * iv + 50);
         match &led.task_end[x] {
-            None => o.violate("C08:not-ended-by-keepalive", format!("endpoint {x} has keepalive on (interval {} ms, timeout {} ms) and the link went silent (seq {:?}), but its connection task never ended", r.plan.eps[x].keepalive_ms[0], r.plan.eps[x].keepalive_ms[1], ei.first_fault_seq)),
+            None if !long_enough => o.probe("cut-too-close-to-the-horizon", 1),
+            None => o.violate("C08:not-ended-by-keepalive", format!("endpoint {x} has keepalive on (interval {} ms, timeout {} ms) and the link went silent (seq {:?}), but its connection task never ended (the run ended {:?} at {} ms, the cut happened by {:?} ms; still running: {:?})", r.plan.eps[x].keepalive_ms[0], r.plan.eps[x].keepalive_ms[1], ei.first_fault_seq, r.end, r.sim_ms, cut_by, r.unfinished)),
             Some(t) => {
                 if format!("{t:?}").contains("KeepaliveTimeout") {
                     o.probe("ended-by-keepalive-expiry", 1);
